@@ -118,6 +118,7 @@ def rule_anchors():
 
 ENGINE_TABLES = {"loops.py": {"C13"}, "assumptions.py": {"C08", "C09"}, "rangedrv.py": {"C08", "C09"}, "exthdr.py": {"C05", "C08"}}
 ALIASES = {}                # new C name -> reference name, for functions recognised as pure renames in this run
+FUZZY = {}                  # the subset of ALIASES found by resemblance (renamed and reworked): new name -> (reference name, similarity)
 CURRENT_DEFINED = None      # C names of the functions defined in the normalised plain view of this run (set by Context.plain)
 
 
@@ -205,8 +206,9 @@ class Views:
         """A function of the reference tree that the rules name and that is no longer defined, while exactly one new function has the body
         it had (fingerprint.py): a pure rename.  The new name is then treated as the old one throughout (ALIASES), and says so in the
         evidence.  Anything else (changed body, merged, removed) stays 'vanished'."""
-        global ALIASES
+        global ALIASES, FUZZY
         ALIASES = {}
+        FUZZY = {}
         here = os.path.dirname(os.path.abspath(__file__))
         known = set(open(os.path.join(here, "known_functions.txt")).read().split())
         linked = os.path.join(self.dir, "all.link.bc")
@@ -235,6 +237,38 @@ class Views:
                 cands |= new.get(fp, set())
             if len(cands) == 1:
                 ALIASES[cands.pop()] = a
+        # renamed AND reworked (split, if-chain for switch, parameters reordered): the exact body is gone, but what the function is about
+        # is not.  A vanished anchor is identified with the one new function that resembles it clearly more than any other new function
+        # does - only to decide WHERE the rules look; what they find there is judged as strictly as before.
+        still = sorted(missing - set(ALIASES.values()))
+        fpath = os.path.join(here, "known_features.json")
+        if still and os.path.exists(fpath):
+            from .fingerprint import features
+            reff = _json.load(open(fpath))
+            newf = {}
+            for f in m.defined():
+                if f.cname not in known and f.cname not in ALIASES:
+                    newf.setdefault(f.cname, set()).update(repr(x) for x in features(f))
+            pairs = []
+            for a in still:
+                ra = set(reff.get(a, []))
+                if len(ra) < 4:
+                    continue
+                for n, fs_ in newf.items():
+                    j = len(ra & fs_) / float(len(ra | fs_) or 1)
+                    pairs.append((j, a, n))
+            pairs.sort(reverse=True)
+            used_a, used_n = set(), set()
+            for j, a, n in pairs:
+                if a in used_a or n in used_n or j < 0.5:
+                    continue
+                rivals = [j2 for j2, a2, n2 in pairs if (a2 == a and n2 != n and n2 not in used_n) or (n2 == n and a2 != a and a2 not in used_a)]
+                if rivals and max(rivals) > j - 0.12:
+                    continue
+                ALIASES[n] = a
+                FUZZY[n] = (a, round(j, 2))
+                used_a.add(a)
+                used_n.add(n)
 
     def __exit__(self, *a):
         if self.dir and not self.keep:
